@@ -64,3 +64,63 @@ fn c26_native_empty_chain_sweep() {
     println!("C26-NATIVE {} scenarios, {} leave a corrupt or wrong archive; first: {:?}", runs, bad.len(), bad.first());
     assert!(bad.is_empty(), "{} scenarios fail, e.g. {}", bad.len(), bad[0]);
 }
+
+// Bucket chains: names of different lengths that hash into ONE bucket (found by search with the archive's own
+// hash), published in every order; every one of them is then deleted / resized in turn.  After each step
+// verify() must pass and exactly the live objects must be fetchable.
+#[test]
+fn c26_native_bucket_chain_delete() {
+    let mut bad: Vec<String> = Vec::new();
+    // the hash is keyed per archive: the colliding names are searched with each archive's own hash
+    fn colliding(archive: &Archive<()>) -> Vec<Vec<u8>> {
+        let mut by_bucket: HashMap<u64, Vec<Vec<u8>>> = HashMap::new();
+        for i in 0u32..400000 {
+            let len = 1 + (i % 7) as usize;
+            let mut name = format!("{:x}", i).into_bytes();
+            while name.len() < len + 3 { name.push(b'x') }
+            let h = archive.meta.hash_name(&name);
+            let v = by_bucket.entry(h).or_default();
+            if v.iter().all(|n| n.len() != name.len()) { v.push(name) }
+            if v.len() == 4 { return v.clone() }
+        }
+        Vec::new()
+    }
+    let perms: [[usize; 4]; 6] = [[0,1,2,3],[3,2,1,0],[1,0,3,2],[2,3,0,1],[0,2,1,3],[3,0,2,1]];
+    for perm in perms { for victim in 0..4usize { for grow in [false, true] {
+        let res = std::panic::catch_unwind(|| -> Result<(), String> {
+            let mut archive = Archive::<()>::create_with_file(tempfile::tempfile().unwrap()).map_err(|e| format!("{:?}", e))?;
+            let group = colliding(&archive);
+            if group.len() != 4 { return Err("fixture: no 4 colliding names of different lengths found".into()) }
+            let mut content: HashMap<Vec<u8>, Vec<u8>> = HashMap::new();
+            for &i in &perm {
+                let d = data(1, i as u8 + 1);
+                archive.publish(&group[i], &(), &d).map_err(|e| format!("publish: {:?}", e))?;
+                content.insert(group[i].clone(), d);
+            }
+            if grow {
+                let d = data(3, 0x55);
+                archive.update(&group[victim], &(), &d, |_| Ok(())).map_err(|e| format!("update: {:?}", e))?;
+                content.insert(group[victim].clone(), d);
+            } else {
+                archive.delete(&group[victim], |_| Ok(())).map_err(|e| format!("delete: {:?}", e))?;
+                content.remove(&group[victim]);
+            }
+            archive.verify().map_err(|e| format!("verify: {:?}", e))?;
+            for (n, d) in &content {
+                let got = archive.fetch_bytes(n).map_err(|e| format!("fetch {:?}: {:?}", String::from_utf8_lossy(n), e))?;
+                if got.as_ref() != d.as_slice() { return Err(format!("object {:?} has other content", String::from_utf8_lossy(n))) }
+            }
+            let mut count = 0;
+            for item in archive.objects().map_err(|e| format!("{:?}", e))? { item.map_err(|e| format!("{:?}", e))?; count += 1 }
+            if count != content.len() { return Err(format!("{} objects listed, {} expected", count, content.len())) }
+            Ok(())
+        });
+        match res {
+            Ok(Ok(())) => {}
+            Ok(Err(e)) => if bad.len() < 4 { bad.push(format!("publish order {:?}, {} entry {}: {}", perm, if grow { "grow" } else { "delete" }, victim, e)) },
+            Err(_) => if bad.len() < 4 { bad.push(format!("publish order {:?}, {} entry {}: PANIC", perm, if grow { "grow" } else { "delete" }, victim)) },
+        }
+    }}}
+    println!("C26-NATIVE-BUCKET scenarios that leave a broken archive: {:?}", bad);
+    assert!(bad.is_empty(), "{:#?}", bad);
+}
